@@ -112,3 +112,11 @@ func FuzzC06(f *testing.F) {
 }
 
 var _ = fmt.Sprint
+
+func FuzzC04(f *testing.F) {
+	f.Add([]byte{})
+	f.Fuzz(rapid.MakeFuzz(func(rt *rapid.T) {
+		c, _ := genC04Case(rt, nil)
+		fuzzFail(rt, "C04", "c04.stream", c, evalC04(c))
+	}))
+}
